@@ -148,10 +148,10 @@ int run(const Args& A) {
     for (long c = 0; c < ncases; c++) {
         if (!A.selected(c)) continue;
         Rng r(Rng::mix(A.seed, uint64_t(c)));
-        int mode = int(r.below(10));        // 0-3 set algebra, 4-6 images, 7-9 numeric
+        int mode = int(r.below(12));        // 0-3 set algebra, 4-6 images, 7-9 numeric, 10-11 EV+ distance images
         bool rel = mode <= 3 ? r.chance(2, 3) : false;
-        bool nrel = mode >= 7 && r.chance(1, 3);
-        bool relDom = rel || nrel || (mode >= 4 && mode <= 6);
+        bool nrel = mode >= 7 && mode <= 9 && r.chance(1, 3);
+        bool relDom = rel || nrel || (mode >= 4 && mode <= 6) || mode >= 10;
         Dom D = nrel ? randomDom(r, 1, 2, 3, 200, true)
                      : randomDom(r, relDom ? 1 : 2, relDom ? 3 : 4, A.thorough() ? 4 : 3, relDom ? 800 : 200, relDom);
         D.create();
@@ -207,6 +207,37 @@ int run(const Args& A) {
                 else if (x < 92) {
                     // reachability (saturation and breadth-first) with the result in the operand's own forest and an
                     // identity-reduced relation: the combinations without recorded findings of C08
+                    int a = r.pick(ps), q = r.pick(pr);
+                    if (C.fs[size_t(C.pool[size_t(q)].f)].k.rr == reduction_rule::IDENTITY_REDUCED) {
+                        bool fwd = r.chance(1, 2);
+                        if (r.chance(1, 2)) C.binf(fwd ? "REACH_SAT_FWD" : "REACH_SAT_BWD", REACHABLE_SATUR(fwd), a, q, C.pool[size_t(a)].f);
+                        else C.binf(fwd ? "REACH_NOFS_FWD" : "REACH_NOFS_BWD", REACHABLE_TRAD_NOFS(fwd), a, q, C.pool[size_t(a)].f);
+                    }
+                }
+                else C.housekeeping();
+            }
+        } else if (mode >= 10) {
+            // EV+ distance functions over sets, boolean relations: images add one to the distances and take minima,
+            // reachability iterates that to the fixed point; all results stay in EV+ set forests
+            STATS.hit("mode.evimage");
+            std::vector<int> sets, rels;
+            int ns = r.range(1, 2), nr = r.range(1, 2);
+            for (int i = 0; i < ns; i++) { Kind k; k.rt = range_type::INTEGER; k.el = edge_labeling::EVPLUS; k.rr = r.pick(rules(false)); sets.push_back(C.addForest(k)); }
+            for (int i = 0; i < nr; i++) { Kind k; k.rel = true; k.rr = r.pick(rules(true)); rels.push_back(C.addForest(k)); }
+            for (int i = 0; i < 3; i++) C.addOperand(r.pick(sets), true);
+            for (int i = 0; i < 3; i++) C.addOperand(r.pick(rels), false);
+            for (int s = 0; s < steps; s++) {
+                std::vector<int> ps = C.poolIn(sets), pr = C.poolIn(rels);
+                if (ps.empty()) { C.addOperand(r.pick(sets), true); continue; }
+                if (pr.empty()) { C.addOperand(r.pick(rels), false); continue; }
+                unsigned x = r.below(100);
+                if (x < 25) C.bin("POST_IMAGE", POST_IMAGE, r.pick(ps), r.pick(pr), r.pick(sets));
+                else if (x < 50) C.bin("PRE_IMAGE", PRE_IMAGE, r.pick(ps), r.pick(pr), r.pick(sets));
+                else if (x < 60) C.bin("MINIMUM", MINIMUM, r.pick(ps), r.pick(ps), r.pick(sets));
+                else if (x < 68) C.bin("PLUS", PLUS, r.pick(ps), r.pick(ps), r.pick(sets));
+                else if (x < 74) C.un("COPY", COPY, r.pick(ps), r.pick(sets));
+                else if (x < 80) C.addOperand(r.chance(1, 2) ? r.pick(sets) : r.pick(rels), r.chance(1, 2));
+                else if (x < 88) {
                     int a = r.pick(ps), q = r.pick(pr);
                     if (C.fs[size_t(C.pool[size_t(q)].f)].k.rr == reduction_rule::IDENTITY_REDUCED) {
                         bool fwd = r.chance(1, 2);
